@@ -158,9 +158,10 @@ EXC_TYPES = {'ValueError': ValueError, 'KeyError': KeyError,
 # --- capture --------------------------------------------------------------------
 
 class Call:
-    __slots__ = ('kind', 'time', 'raw', 'wire', 'bad')
+    __slots__ = ('kind', 'time', 'raw', 'wire', 'bad', 'target')
 
-    def __init__(self, kind, time, raw, wire, bad):
+    def __init__(self, kind, time, raw, wire, bad, target=None):
+        self.target = target
         self.kind = kind      # 'msg' | 'bundle'
         self.time = time
         self.raw = raw        # client-level lists
@@ -214,7 +215,7 @@ class Capture:
             self.orig_msg(target, *args)
         finally:
             self.depth -= 1
-        self.calls.append(Call('msg', None, [list(args)], wire, bad))
+        self.calls.append(Call('msg', None, [list(args)], wire, bad, target))
 
     fail_flush = None
 
@@ -228,7 +229,7 @@ class Capture:
         wire, bad = self._wires([list(e) for e in elements])
         self.orig_bundle(target, time, *elements)
         self.calls.append(Call('bundle', time, [list(e) for e in elements],
-                               wire, bad))
+                               wire, bad, target))
 
 
 class Tape:
@@ -1941,8 +1942,84 @@ def finding_cases(ctx):
             k += 1
 
 
+# --- stage: servers ----------------------------------------------------------------------
+# Two servers: every command of a node goes to the node's own server, and a
+# default target (none given) is that server's default group.
+
+SERVER_B = []
+
+
+def run_servers(case, v):
+    from sc3.synth.server import Server
+    from sc3.base.netaddr import NetAddr
+    reset_world(case)
+    if not SERVER_B:
+        SERVER_B.append(Server('c17-b', NetAddr('127.0.0.1', 57199)))
+    servers = {'a': S, 'b': SERVER_B[0]}
+    nodes = []
+    labels = set()
+    for i, op in enumerate(case['ops']):
+        n0 = len(CAP.calls)
+        where = f'op {i} {op}'
+        if op[0] == 'new':
+            _, cls, which, how = op
+            srv = servers[which]
+            target = {'server': srv, 'group': srv.default_group}[how]
+            if cls == 'synth':
+                node = Synth(DEFNAME, None, target)
+            else:
+                node = Group(target)
+            nodes.append((node, which))
+            exp_cmd = '/s_new' if cls == 'synth' else '/g_new'
+        else:
+            _, k, how = op
+            if not nodes:
+                continue
+            node, which = nodes[k % len(nodes)]
+            srv = servers[which]
+            getattr(node, 'move_to_' + how)()     # no target given
+            exp_cmd = '/g_' + how
+            labels.add('default_target_on_' + which)
+        calls = CAP.calls[n0:]
+        msgs = [(c.target, m) for c in calls for m in c.raw]
+        if not v.check(len(msgs) == 1 and msgs[0][1][0] == exp_cmd,
+                       'emitted_mismatch', f'{where}: {msgs}'):
+            break
+        tgt, m = msgs[0]
+        got = (tgt.hostname, tgt.port) if hasattr(tgt, 'hostname') else tuple(
+            tgt) if isinstance(tgt, (list, tuple)) else tgt
+        want = (srv.addr.hostname, srv.addr.port)
+        v.check(got == want, 'command_sent_to_other_server',
+                f'{where}: {m} went to {got}, the node lives on {want}')
+        if op[0] == 'move':
+            v.check(list(m[1:]) == [srv.default_group.node_id, node.node_id],
+                    'emitted_mismatch',
+                    f'{where}: {m}, expected {exp_cmd} '
+                    f'{srv.default_group.node_id} {node.node_id}')
+            v.check(node.group is srv.default_group or getattr(
+                node.group, 'node_id', None) == srv.default_group.node_id
+                and node.group.server is srv, 'node_group_on_other_server',
+                f'{where}: node.group = {node.group!r}')
+        if v.items:
+            break
+    return {'nontrivial': 'default_target_on_b' in labels,
+            'labels': sorted(labels)}
+
+
+def server_cases():
+    new = st.tuples(st.just('new'), st.sampled_from(['synth', 'group']),
+                    st.sampled_from(['a', 'b', 'b']),
+                    st.sampled_from(['server', 'group'])).map(list)
+    move = st.tuples(st.just('move'), st.integers(0, 5),
+                     st.sampled_from(['head', 'tail'])).map(list)
+    return st.fixed_dictionaries({
+        'ops': st.lists(st.one_of(new, move, move), min_size=2, max_size=8)})
+
+
 def stages(ctx):
     return [
+        Stage('servers', run_servers, server_cases(), quick=150,
+              thorough=1500),
         Stage('findings', run_history, cases=finding_cases),
         Stage('completion', run_history, cases=completion_cases,
               exhaustive=False),
